@@ -44,6 +44,13 @@ Fixpoint promotion_negative (c : cond) (o : obj) : bool :=
   | _ => false
   end.
 
+(* ---- clause enum_class_object -----------------------------------------
+   the object is an enum class: its metaclass is EnumMeta, and _deliteral turns the
+   literal class into TypedValue(EnumMeta), which is_overlapping finds disjoint from
+   type[object] / type[int]; so `x = IE; issubclass(x, int)` narrows to Never *)
+Definition enum_class_object (o : obj) : bool :=
+  match o with OClass c => is_enum c | _ => false end.
+
 (* ---- hypotheses that come from the property's quantifier ---------------- *)
 
 (* literals one can compare with: not tuples (kept outside the fragment) *)
@@ -77,7 +84,8 @@ Fixpoint cond_ok (c : cond) (o : obj) : bool :=
 (* the full guard of narrow_keeps_value_partial *)
 Definition c02_guard (c : cond) (o : obj) : bool :=
   wf_obj o && cond_ok c o
-  && negb (multiple_inheritance o) && negb (subclass_bool o) && negb (promotion_negative c o).
+  && negb (multiple_inheritance o) && negb (subclass_bool o) && negb (promotion_negative c o)
+  && negb (enum_class_object o).
 
 (* ---- membership modulo the MinLen/MaxLen annotations (for "never widens") ---- *)
 Definition bmember_s (o : obj) (s : sval) : bool := member_b o (sbase s).
